@@ -159,6 +159,7 @@ type Violation struct {
 
 // Out collects everything one family run produces.
 type Out struct {
+	perSig map[string]int
 	family     string
 	tier       string
 	in         *bufio.Writer // replayable input scenarios
@@ -214,7 +215,13 @@ func (o *Out) Violate(prop, what, sig, input string) {
 	if strings.HasSuffix(sig, "-hang") {
 		o.Hangs++
 	}
-	if len(o.Violations) < 50 {
+	// keep at most 5 per (property, signature) so that a flood of one finding
+	// cannot crowd out a different one
+	if o.perSig == nil {
+		o.perSig = map[string]int{}
+	}
+	o.perSig[prop+"/"+sig]++
+	if o.perSig[prop+"/"+sig] <= 5 && len(o.Violations) < 400 {
 		o.Violations = append(o.Violations, Violation{prop, o.family, what, sig, input})
 	}
 }
